@@ -315,6 +315,34 @@ def rule_tail(chk, prefix="C09"):
     padd = ctx.func("parse", "Parser.add")
     iparam = ps.pos_params[1]
     main = [n for n in cfg.live if n.kind == "for_next" and isinstance(n.ast.iter, ast.Name) and n.ast.iter.id == iparam]
+    if len(main) != 1:
+        # another reading loop (e.g. grouped runs of the input) that adds to Tasks directly: only the timing clause is decided --
+        # a task that has just become complete must be yielded before the next message is read
+        tadd = ctx.func("parse", "Task.add")
+        adds = [n for n in cfg.live for c, m in calls_in_node(n) if tadd in ctx.targets(ps, c)]
+        heads = [n for n in cfg.live if n.kind == "for_next"]
+        for a_ in adds:
+            inner_heads = [h for h in heads if a_ in common.loop_region(cfg, h)]
+            if not inner_heads:
+                continue
+            h = min(inner_heads, key=lambda hh: len(common.loop_region(cfg, hh)))   # the innermost loop: its head is the next read
+            ctests = [t for t in cfg.live if t.kind == "test" and any(isinstance(x, ast.Call) and isinstance(x.func, ast.Attribute) and x.func.attr == "is_complete" for x in ast.walk(t.exprs[0]))]
+            starts = [s_ for s_, l_ in a_.succ if l_ != "exc"]
+            region_h = common.loop_region(cfg, h)
+            inloop = [t for t in ctests if t in region_h]
+            ys = [n for n in cfg.live for e in n.exprs for x in ast.walk(e) if isinstance(x, ast.Yield)]
+            late = not inloop or not cfg.must_pass(starts, [h], inloop, skip_labels=("exc",))[0]
+            if not late:
+                for t in inloop:
+                    e_, lab_ = X.strip_not(t.exprs[0], "true")
+                    tstarts = [s_ for s_, l_ in t.succ if l_ == lab_]
+                    if not cfg.must_pass(tstarts, [h], [y for y in ys if y in region_h], skip_labels=("exc",))[0]:
+                        late = True
+            if late:
+                chk.bad("%s.tail" % prefix, "parse_stream:completed-task-yielded-before-the-next-read", chk.where(ps, a_.lineno),
+                        "after `%s` the loop `for %s in %s` reads the next message without first testing is_complete() and yielding the task: a task whose last message has just been "
+                        "read is reported only when the enclosing run ends -- with itertools.groupby that is after the first message of ANOTHER task (or the end of the stream) has been read, "
+                        "so on a live stream the most recently completed task is withheld" % (unparse(a_.ast)[:40], unparse(h.ast.target), unparse(h.ast.iter)[:30]))
     chk.need(len(main) == 1, "parse_stream: main loop over the input not found")
     main = main[0]
     tails = [n for n in cfg.live if n.kind == "for_next" and isinstance(n.ast.iter, ast.Call) and inc in ctx.targets(ps, n.ast.iter)]
